@@ -46,8 +46,10 @@ import (
 )
 
 type Env struct {
+	noJTI bool // the tokens of this case carry no jti claim (they are then recorded under a hash)
 	// real: the authority sits behind the handler ca.New / Init assembled (realenv.go)
 	real    bool
+	reload  func() error // CA.Reload (what SIGHUP does), then the new handler and authority are picked up
 	handler http.Handler
 	base    context.Context
 	linked  *linkedDB // set for Var "linked": the store package authority must prefer
@@ -135,7 +137,7 @@ func newEnv(k *Case) (*Env, error) {
 	if k.Var == "real" {
 		return newRealEnv(k)
 	}
-	e := &Env{rec: &Recorder{}, extra: map[string]any{}}
+	e := &Env{rec: &Recorder{}, extra: map[string]any{}, noJTI: k.Tok == "nojti"}
 	wantAuth := ""
 	switch {
 	case strings.HasSuffix(k.Var, "bearer"):
@@ -160,7 +162,7 @@ func newEnv(k *Case) (*Env, error) {
 	tlsSrv.StartTLS()
 	e.closer = append(e.closer, tlsSrv.Close)
 	tr := &faultTransport{rec: e.rec, base: &http.Transport{DisableKeepAlives: true}, closed: closed,
-		untrusted: strings.TrimPrefix(tlsSrv.URL, "https://"), denyAll: k.Deny}
+		untrusted: strings.TrimPrefix(tlsSrv.URL, "https://"), denyAll: k.Deny, denyKind: k.DenyK}
 
 	// key material is made here (not by the fixture) so that the CAS can be wrapped and, for
 	// SCEP, the intermediate key is an RSA key the SCEP authority can decrypt with
@@ -202,11 +204,16 @@ func newEnv(k *Case) (*Env, error) {
 			}
 		}
 	}
+	if k.Names == "dup" { // one back-end under one name for the enriching and the authorizing call
+		for _, wh := range whs {
+			wh.Name = "backend"
+		}
+	}
 	clientAuth(whs)
 	extra := []authority.Option{
 		authority.WithTransportWrapper(func(t *http.Transport) http.RoundTripper {
 			t.DisableKeepAlives = true
-			return &faultTransport{rec: e.rec, base: t, closed: closed, untrusted: tr.untrusted, denyAll: k.Deny}
+			return &faultTransport{rec: e.rec, base: t, closed: closed, untrusted: tr.untrusted, denyAll: k.Deny, denyKind: k.DenyK}
 		}),
 		authority.WithWebhookClient(&http.Client{Transport: tr, Timeout: 30 * time.Second}),
 		authority.WithX509CAService(&faultCAS{SoftCAS: soft, rec: e.rec}),
@@ -239,8 +246,11 @@ func newEnv(k *Case) (*Env, error) {
 		all := append(append([]*provisioner.Webhook{}, whs...), hooks(e.srv.URL, "challenge", "SCEPCHALLENGE", k.CH, secret, "ALL")...)
 		all = append(all, hooks(e.srv.URL, "notify", "NOTIFYING", k.N, secret, "ALL")...)
 		clientAuth(all[len(whs):])
-		sp := &provisioner.SCEP{Type: "SCEP", Name: "scep", MinimumPublicKeyLength: 2048, EncryptionAlgorithmIdentifier: 2,
-			Options: &provisioner.Options{Webhooks: all}}
+		sp := &provisioner.SCEP{Type: "SCEP", Name: "scep", MinimumPublicKeyLength: 2048,
+			// content encryption 0 (DES-CBC) = the pkcs7 library's process-wide default: scep.Authority.encrypt sets and restores that
+			// global around every reply, which is only safe with one authority per process; the harness runs many side by side
+			EncryptionAlgorithmIdentifier: 0,
+			Options:                       &provisioner.Options{Webhooks: all}}
 		if k.CH == 0 {
 			sp.ChallengePassword = scepSecret
 		}
@@ -477,7 +487,7 @@ func (e *Env) issueX509(cn string) (*x509.Certificate, crypto.Signer, error) {
 }
 
 func sshToken(e *Env, typ, keyID string, principals []string, key *jose.JSONWebKey) (string, error) {
-	return e.ca.Token(fixture.TokenOpts{Subject: keyID, Audience: fixture.Audience("/1.0/ssh/sign"), NoSANs: true, Key: key, IssuedAt: time.Now().Add(ahead),
+	return e.ca.Token(fixture.TokenOpts{Subject: keyID, Audience: fixture.Audience("/1.0/ssh/sign"), NoSANs: true, Key: key, IssuedAt: time.Now().Add(ahead), JTI: e.jti(),
 		Extra: map[string]any{"step": map[string]any{"ssh": map[string]any{"certType": typ, "keyID": keyID, "principals": principals}}}})
 }
 
@@ -503,8 +513,16 @@ func (e *Env) issueSSHHost(name string) (*ssh.Certificate, *ecdsa.PrivateKey, er
 	return crt, priv, err
 }
 
+// jti is the fixture's JTI option: "" = a random id, "-" = no jti claim at all.
+func (e *Env) jti() string {
+	if e.noJTI {
+		return "-"
+	}
+	return ""
+}
+
 // sshpopToken mints the token a host uses to renew / rekey / revoke its own certificate.
-func sshpopToken(crt *ssh.Certificate, priv *ecdsa.PrivateKey, aud string, sub string) (string, error) {
+func sshpopToken(crt *ssh.Certificate, priv *ecdsa.PrivateKey, aud string, sub string, noJTI bool) (string, error) {
 	so := new(jose.SignerOptions).WithType("JWT").WithHeader("sshpop", base64.StdEncoding.EncodeToString(crt.Marshal()))
 	sig, err := jose.NewSigner(jose.SigningKey{Algorithm: jose.ES256, Key: priv}, so)
 	if err != nil {
@@ -514,6 +532,9 @@ func sshpopToken(crt *ssh.Certificate, priv *ecdsa.PrivateKey, aud string, sub s
 	jti, _ := randutil.Hex(32)
 	claims := map[string]any{"iss": "sshpop", "sub": sub, "aud": aud, "jti": jti,
 		"iat": now.Add(ahead).Unix(), "nbf": now.Add(-time.Second).Unix(), "exp": now.Add(5 * time.Minute).Unix()}
+	if noJTI {
+		delete(claims, "jti")
+	}
 	return jose.Signed(sig).Claims(claims).CompactSerialize()
 }
 
@@ -525,7 +546,7 @@ func (e *Env) prepare(k *Case) (*httpReq, error) {
 	const cn = "leaf.verif.test"
 	switch k.Op {
 	case "sign":
-		to := fixture.TokenOpts{Subject: cn, IssuedAt: time.Now().Add(ahead)}
+		to := fixture.TokenOpts{Subject: cn, IssuedAt: time.Now().Add(ahead), JTI: e.jti()}
 		sans := []string{cn}
 		body := &api.SignRequest{}
 		switch k.Chk {
@@ -576,9 +597,13 @@ func (e *Env) prepare(k *Case) (*httpReq, error) {
 		if k.Chk == 1 {
 			sans = []string{"other.verif.test"}
 		}
-		tok, err := jose.Signed(sig).Claims(map[string]any{"iss": "x5c", "sub": cn, "sans": []string{cn}, "jti": jti,
+		x5cClaims := map[string]any{"iss": "x5c", "sub": cn, "sans": []string{cn}, "jti": jti,
 			"aud": fixture.Audience("/1.0/sign") + "#x5c/x5c", "iat": now.Add(ahead).Unix(), "nbf": now.Add(-time.Second).Unix(),
-			"exp": now.Add(5 * time.Minute).Unix()}).CompactSerialize()
+			"exp": now.Add(5 * time.Minute).Unix()}
+		if e.noJTI {
+			delete(x5cClaims, "jti")
+		}
+		tok, err := jose.Signed(sig).Claims(x5cClaims).CompactSerialize()
 		if err != nil {
 			return nil, err
 		}
@@ -620,7 +645,7 @@ func (e *Env) prepare(k *Case) (*httpReq, error) {
 		if k.Op == "revokemtls" {
 			return &httpReq{h: api.Revoke, path: "/1.0/revoke", peer: crt, body: body}, nil
 		}
-		to := fixture.TokenOpts{Subject: serial, Audience: fixture.Audience("/1.0/revoke"), NoSANs: true, IssuedAt: time.Now().Add(ahead)}
+		to := fixture.TokenOpts{Subject: serial, Audience: fixture.Audience("/1.0/revoke"), NoSANs: true, IssuedAt: time.Now().Add(ahead), JTI: e.jti()}
 		if k.Chk == 0 {
 			other, err := jose.GenerateJWK("EC", "P-256", "ES256", "sig", "", 0)
 			if err != nil {
@@ -693,7 +718,7 @@ func (e *Env) prepare(k *Case) (*httpReq, error) {
 		}
 		body := &api.SSHSignRequest{PublicKey: pub.Marshal(), CertType: "user", KeyID: user, Principals: []string{user},
 			AddUserPublicKey: addPub.Marshal(), IdentityCSR: api.NewCertificateRequest(idCSR)}
-		tok, err := e.ca.Token(fixture.TokenOpts{Subject: user, NoSANs: true, IssuedAt: time.Now().Add(ahead),
+		tok, err := e.ca.Token(fixture.TokenOpts{Subject: user, NoSANs: true, IssuedAt: time.Now().Add(ahead), JTI: e.jti(),
 			Extra: map[string]any{"aud": []string{fixture.Audience("/1.0/ssh/sign"), fixture.Audience("/1.0/sign")},
 				"step": map[string]any{"ssh": map[string]any{"certType": "user", "keyID": user, "principals": []string{user}}}}})
 		if err != nil {
@@ -724,13 +749,13 @@ func (e *Env) prepare(k *Case) (*httpReq, error) {
 		}
 		switch k.Op {
 		case "sshrenew":
-			tok, err := sshpopToken(crt, signer, fixture.Audience("/1.0/ssh/renew")+"#sshpop/sshpop", "host.verif.test")
+			tok, err := sshpopToken(crt, signer, fixture.Audience("/1.0/ssh/renew")+"#sshpop/sshpop", "host.verif.test", e.noJTI)
 			if err != nil {
 				return nil, err
 			}
 			return &httpReq{h: api.SSHRenew, path: "/1.0/ssh/renew", body: &api.SSHRenewRequest{OTT: tok}, peer: peer}, nil
 		case "sshrekey":
-			tok, err := sshpopToken(crt, signer, fixture.Audience("/1.0/ssh/rekey")+"#sshpop/sshpop", "host.verif.test")
+			tok, err := sshpopToken(crt, signer, fixture.Audience("/1.0/ssh/rekey")+"#sshpop/sshpop", "host.verif.test", e.noJTI)
 			if err != nil {
 				return nil, err
 			}
@@ -744,7 +769,7 @@ func (e *Env) prepare(k *Case) (*httpReq, error) {
 			}
 			return &httpReq{h: api.SSHRekey, path: "/1.0/ssh/rekey", body: &api.SSHRekeyRequest{OTT: tok, PublicKey: npub.Marshal()}, peer: peer}, nil
 		default:
-			tok, err := sshpopToken(crt, signer, fixture.Audience("/1.0/ssh/revoke")+"#sshpop/sshpop", serial)
+			tok, err := sshpopToken(crt, signer, fixture.Audience("/1.0/ssh/revoke")+"#sshpop/sshpop", serial, e.noJTI)
 			if err != nil {
 				return nil, err
 			}
